@@ -130,12 +130,14 @@ def ea_entry(prop, level_text, level_note, rule, extra_keys, quick_s=240, thorou
 
 
 def cov_c10(st, tier):
-    ea, aux = st["parts"]["ea"], st["parts"]["aux"]
+    ea, aux, wr = st["parts"]["ea"], st["parts"]["aux"], st["parts"]["writer"]
     base = cov_ea("C10", "", ["strictly_parsed", "answers"])(ea, tier)
     base.update({
-        "states": ea["execs"] + ea["states"] + aux["aux_queries"], "transitions": ea["steps"] + aux["transitions"],
-        "traces_validated_against_impl": ea["execs"] + aux["aux_queries"], "evaluations": ea["execs"] + aux["aux_queries"],
-        "distinct_nontrivial": ea["distinct_outcomes"] + aux["distinct_outcomes"],
+        "states": ea["execs"] + ea["states"] + aux["aux_queries"] + wr["round_trips"], "transitions": ea["steps"] + aux["transitions"] + wr["round_trips"],
+        "traces_validated_against_impl": ea["execs"] + aux["aux_queries"] + wr["round_trips"], "evaluations": ea["execs"] + aux["aux_queries"] + wr["round_trips"],
+        "distinct_nontrivial": ea["distinct_outcomes"] + aux["distinct_outcomes"] + wr["distinct_outcomes"],
+        "writer_part": {"answers_built_by_write_dns_and_strictly_parsed": wr["answers_wellformed"], "cases": wr["round_trips"], "wall_s": wr.get("wall_s"),
+                        "grid": "7 record types x 5 downstream codecs x 2 query-name lengths x payload lengths 2..4096 (every length up to 300, then every 16th and boundary ranges; every length in thorough) x 3-5 contents"},
         "rule": "E-A part: state = end state of one complete execution of real client+server under one fate assignment, transition = one scheduler step; every datagram of every execution is strictly parsed. "
                 "Aux part: state = one (tunnel domain, query name, type) case, transition = one query handled by the real server loop plus each message it emits. distinct = distinct delivery outcome classes (E-A) + distinct (type, in-domain, answers, answer length) classes (aux)",
         "ea_part": {"executions": ea["execs"], "cells": ea["cells"], "datagrams_strictly_parsed": ea["strictly_parsed"], "answers_paired": ea["answers"], "wall_s": ea.get("wall_s")},
@@ -433,10 +435,11 @@ PROPS = {
         "parts": [
             {"name": "ea", "harness": "ea.c", "flavor": "ubsan", "images": (("s", "server"), ("ca", "client")), "args": ["--prop", "C10"]},
             {"name": "aux", "harness": "C10aux.c", "flavor": "ubsan", "images": (("s", "server"),), "args": []},
+            {"name": "writer", "harness": "C09.c", "flavor": "asan", "images": (("s", "server"), ("ca", "client")), "args": ["--prop", "C10"]},
         ],
         "tiers": {"quick": {"budget_s": 480}, "thorough": {"budget_s": 2400}},
         "coverage": cov_c10,
-        "level_text": "(1) Every datagram emitted by the real client and the real server in every execution of the E-A exploration (clean path on all cells, every single fate deviation on the pairwise subset) is parsed by an independent strict RFC 1035 parser; every server answer must pair with a received, not yet answered query with the same requester, id, question name (byte-exact) and type. (2) Auxiliary answers: under five tunnel domains (plain, upper-case, wildcard, minimal, maximal 128 characters) the real server loop is asked NS / A / tunnel-type / AAAA queries for every name built from up to three labels of length <= 2 over {a,A,0,-,0xe9,z,n,w}, ns./www. in every letter case and near misses, first labels of every length 1..63 (three fills, four first characters, with and without a second 63-byte label), names of 240..256 bytes on the wire in three label shapes, and names outside the domain (forwarded copy parsed too). Every answer must parse strictly, echo id/name/type; NS answers must name ns.<domain as asked>, ns./www. A answers must carry a 4-byte address.",
+        "level_text": "(1) Every datagram emitted by the real client and the real server in every execution of the E-A exploration (clean path on all cells, every single fate deviation on the pairwise subset) is parsed by an independent strict RFC 1035 parser; every server answer must pair with a received, not yet answered query with the same requester, id, question name (byte-exact) and type. (2) Auxiliary answers: under five tunnel domains (plain, upper-case, wildcard, minimal, maximal 128 characters) the real server loop is asked NS / A / tunnel-type / AAAA queries for every name built from up to three labels of length <= 2 over {a,A,0,-,0xe9,z,n,w}, ns./www. in every letter case and near misses, first labels of every length 1..63 (three fills, four first characters, with and without a second 63-byte label), names of 240..256 bytes on the wire in three label shapes, and names outside the domain (forwarded copy parsed too). Every answer must parse strictly, echo id/name/type; NS answers must name ns.<domain as asked>, ns./www. A answers must carry a 4-byte address. (3) Writer: every answer the server's real write_dns() builds over the C09 grid (7 types x 5 codecs x 2 name lengths x payload lengths 2..4096 x contents) is strictly parsed.",
         "level_note": "Trusted: ref/refdns.c. Queries whose labels contain '.' or NUL are outside the property and outside the alphabets. Client queries for all (L, domain, codec) combinations are strictly parsed by the C08 check.",
         "technique": "stateless model checking (fate enumeration, deviation-bounded) of real client+server with a strict-parser monitor, plus exhaustive enumeration of query-name families against the real server loop",
         "assumptions": EA_ASSUME,
